@@ -444,6 +444,8 @@ type c17WitnessDoc struct {
 	Rounds   int        `json:"rounds,omitempty"`
 	Scanners int        `json:"scanners,omitempty"`
 	Procs    int        `json:"gomaxprocs,omitempty"`
+	Dups     int        `json:"dups,omitempty"`
+	StrLen   int        `json:"string_length,omitempty"`
 	Tags     []string   `json:"tags,omitempty"`
 }
 
@@ -452,6 +454,30 @@ func c17Witness(env *core.Env, raw json.RawMessage) *core.CaseResult {
 	var w c17WitnessDoc
 	if err := json.Unmarshal(raw, &w); err != nil {
 		res.Inconclusive = "bad witness: " + err.Error()
+		return res
+	}
+	if w.Mode == "dup-read" {
+		// {"mode":"dup-read","kind":"skiplist","string_length":600,"dups":40,"rounds":5,"scanners":3,"gomaxprocs":4,"repeat":20}
+		kind := -1
+		for i, n := range c17KindNames {
+			if n == w.Kind {
+				kind = i
+			}
+		}
+		if kind < 0 || w.Dups < 2 || w.StrLen < 1 || w.StrLen > 900 {
+			res.Inconclusive = "bad witness: dup-read parameters"
+			return res
+		}
+		n := max(w.Repeat, 1)
+		for i := 0; i < n && len(res.Violations) == 0; i++ {
+			r := core.NewResult()
+			cc := c17DupRead(kind, w.StrLen, w.Dups, max(w.Rounds, 1), max(w.Scanners, 1), max(w.Procs, 2), int64(i))
+			c17ExecConc(cc, int64(i), r, w.Tags, map[string]any{"witness": w, "attempt": i + 1}, false)
+			res.Violations = append(res.Violations, r.Violations...)
+			for k, v := range r.Stats {
+				res.Add(k, v)
+			}
+		}
 		return res
 	}
 	if w.Mode == "scan-vs-drain" {
